@@ -13,7 +13,7 @@ search:  the property statement on the real code with exact-rational oracles: al
          constructor contracts incl. degenerate geometry, frame shifts with variational
          particles against exact truncated-polynomial (dual number) arithmetic
 """
-import ctypes, itertools, json, math, os, sys
+import ctypes, itertools, json, math, os, shutil, sys, tempfile
 from fractions import Fraction as Fr
 sys.path.insert(0, os.path.dirname(os.path.abspath(__file__)))
 from common import *
@@ -29,6 +29,33 @@ def ulps(a, b, scale):
     if a == b:
         return 0.0
     return abs(a - b) / (ULP * max(scale, 1e-300))
+
+
+DIMS = {}
+
+
+def dim(name, n=1):
+    """coverage.dimensions: number of evaluated cases per crossed configuration dimension"""
+    DIMS[name] = DIMS.get(name, 0) + n
+
+
+REQUIRED_DIMS = [
+    "roles: N_active < N / test particles (frame ops)", "roles: zero-mass and leading massless bodies (frame ops)",
+    "variational: 1st order non-zero (frame ops)", "variational: 2nd order non-zero (frame ops)", "variational: test-particle variation (frame ops)",
+    "variational: rotate 1st/2nd order/megno", "variational: convert_particle_units",
+    "scale: N >= 300 (frame ops)", "geometry: centre of mass far from the origin and moving",
+    "rotation: non-unit quaternion (exact law)", "rotation: zero / NaN / inf constructor arguments",
+    "rotation: exactly antiparallel from_to", "rotation: non-unit newz with non-perpendicular newx",
+    "history: op then continue, integrator ias15", "history: op then continue, integrator whfast safe_mode=1",
+    "history: op then continue, integrator whfast safe_mode=0 + recalculate flag", "history: op then continue, integrator mercurius",
+    "history: op then continue, integrator trace", "history: op then continue, integrator janus + recalculate flag",
+    "history: op then continue, integrator saba safe_mode=0 + recalculate flag", "history: op then continue, integrator leapfrog",
+    "history: op then continue, integrator eos", "history: op then continue, integrator bs",
+    "time: dt < 0 after a frame op", "history: frame op, save/restore, continue",
+    "units: particles added by orbital elements", "units: persisted through archive / copy / pickle",
+    "units: G assigned manually then convert", "units: hash / N_active / t / dt untouched by conversion",
+    "units: setter given a dict / upper case / any order", "operators: different N rejected", "operators: variational particles on one side only",
+]
 
 
 class Tie:
@@ -281,6 +308,18 @@ def rotations(c, rebound, exe):
                 if not e <= 1e-13:
                     fails.append(("rotate-inverse", "rotating with the inverse does not undo the rotation", dict(v=v, q=q, back=vl(back))))
             npf = float(sum(Fr(x) ** 2 for x in p))
+            if abs(npf - 1) > 1e-3:
+                # a user-supplied non-unit quaternion: what reb_vec3d_rotate does is given exactly by c20_rotate_dot_general,
+                # R v . R w = v.w + 4(|p|^2 - 1)(u x v).(u x w)
+                rvp, rwp = vl(F["vec3d_rotate"](V_, P_)), vl(F["vec3d_rotate"](W_, P_))
+                u_ = fr3(p[:3])
+                pred = fdot(fr3(v), fr3(w)) + 4 * (sum(Fr(x) ** 2 for x in p) - 1) * fdot(fcross(u_, fr3(v)), fcross(u_, fr3(w)))
+                gotd = fdot(fr3(rvp), fr3(rwp))
+                e = abs(float(gotd - pred)) / (sc * scw * max(1.0, npf) ** 2)
+                note("non_unit_rotate_dot_law", e)
+                dim("rotation: non-unit quaternion (exact law)")
+                if not e <= 1e-12:
+                    fails.append(("rotate-nonunit-law", "reb_vec3d_rotate with a non-unit quaternion does not follow R v.R w = v.w + 4(|q|^2-1)(u x v).(u x w)", dict(v=v, w=w, q=p)))
             if abs(nq - 1) < 1e-12 and abs(npf - 1) < 1e-12:
                 a = F["vec3d_rotate"](V_, pq)
                 b = F["vec3d_rotate"](rv_, P_)
@@ -320,6 +359,8 @@ def rotations(c, rebound, exe):
             _ff, _tt = fr3(f), fr3(t)
             _anti = fdot(_ff, _tt) < 0 and sum(x * x for x in fcross(_ff, _tt)) <= Fr(1, 10 ** 24) * fdot(_ff, _ff) * fdot(_tt, _tt)
             ft_cases.append((f, t, cls if not _anti else "antiparallel-near", qv))
+            if cls == "antiparallel-exact":
+                dim("rotation: exactly antiparallel from_to")
             # conditioning of the construction: the bisector from+to cancels when the vectors are nearly opposite
             _lf, _lt = math.sqrt(float(fdot(_ff, _ff))) or 1.0, math.sqrt(float(fdot(_tt, _tt))) or 1.0
             _hs = math.sqrt(sum((a / _lf + b / _lt) ** 2 for a, b in zip(f, t)))
@@ -452,6 +493,8 @@ def rotations(c, rebound, exe):
             lz = math.sqrt(sum(x * x for x in nz))
             zn = [x / lz for x in nz]
             dp = sum(a * b for a, b in zip(zn, nx))
+            if abs(lz - 1) > 1e-3 and abs(dp) > 1e-3 * math.sqrt(sum(x * x for x in nx)):
+                dim("rotation: non-unit newz with non-perpendicular newx")
             xo = [a - dp * b for a, b in zip(nx, zn)]
             lx = math.sqrt(sum(x * x for x in xo))
             if lx > 1e-6 * math.sqrt(sum(x * x for x in nx)) and all(x == x for x in ql(q)):
@@ -521,6 +564,26 @@ def rotations(c, rebound, exe):
             fails.append(("nonfinite:rotation-constructors", "the real code returned a non-finite value where the oracle expects a number (%r)" % (ex,),
                           {k_: repr(_lc[k_])[:400] for k_ in ['ang', 'ax', 'Om', 'inc', 'om', 'nz', 'nx', 'q1', 'q2', 't'] if k_ in _lc}))
 
+    # ---------------- zero / NaN / inf arguments: the constructors return NaN silently (no error path); model and code must agree
+    nanv, infv = float("nan"), float("inf")
+    degs = [[0.0, 0.0, 0.0], [nanv, 0.0, 1.0], [infv, 0.0, 0.0], [0.0, -0.0, 0.0], [1e-200, 0.0, 0.0], [1e200, 1e200, 0.0]]
+    okv = [[1.0, 0.0, 0.0], [0.3, -2.0, 1.5]]
+    for dv in degs:
+        for ov in okv:
+            for f_, t_ in ((dv, ov), (ov, dv)):
+                q = F["rotation_init_from_to"](V(*f_), V(*t_))
+                for opn in ("fromto", "fromtofixed"):
+                    lines.append(opn + " " + hv(*f_, *t_)); expect.append(" ".join(d2h(x) for x in ql(q))); meta.append((opn, "degenerate-input"))
+                q = F["rotation_init_to_new_axes"](V(*f_), V(*t_))
+                for vv in ("00", "10", "01", "11"):
+                    lines.append("newaxes" + vv + " " + hv(*f_, *t_)); expect.append(" ".join(d2h(x) for x in ql(q))); meta.append(("newaxes" + vv, "degenerate-input"))
+                dim("rotation: zero / NaN / inf constructor arguments", 2)
+        for ang in (1.0, nanv, infv, 0.0):
+            add("angleaxis " + hv(ang, *dv), ql(F["rotation_init_angle_axis"](ang, V(*dv))), "rotation_init_angle_axis")
+            dim("rotation: zero / NaN / inf constructor arguments")
+        add("normalize " + hv(*dv), vl(F["vec3d_normalize"](V(*dv))), "vec3d_normalize")
+    for ang3 in ((nanv, 0.1, 0.2), (0.1, infv, 0.2), (0.0, 0.0, 0.0)):
+        add("orbit " + hv(*ang3), ql(F["rotation_init_orbit"](*ang3)), "rotation_init_orbit")
     # ---------------- run the model
     c.log("rotations: %d model lines through drv_c20" % len(lines))
     got = run_driver(exe, lines)
@@ -694,6 +757,7 @@ def rotations(c, rebound, exe):
             ev = max(ev, max(abs(float(Fr(a) - b)) for a, b in zip([pk.x, pk.y, pk.z, pk.vx, pk.vy, pk.vz], wx + wv)) / sck)
         if sim.N > N:
             note("sim_rotate_variations_vs_exact", ev)
+            dim("variational: rotate 1st/2nd order/megno")
             sim_rot_var_cases[vmode] = sim_rot_var_cases.get(vmode, 0) + 1
             if not ev <= 1e-13:
                 fails.append(("sim-rotate-variations", "Simulation.rotate does not rotate the variational particles (N=%d, N_var=%d, mode %d): they are no longer the derivative of the rotated coordinates" % (sim.N, sim.N_var, vmode),
@@ -1196,6 +1260,120 @@ def frame(c, rebound, exe):
 def snapshot_scaled(pre, s):
     return [[row[0]] + [v * s for v in row[1:]] for row in pre]
 
+
+
+# ----------------------------------------------------------------------------- histories: a frame operation in the middle of a run
+def histories(c, rebound):
+    """rotation and the move to the centre-of-mass frame are symmetries of the dynamics: applying them in the middle of a run
+    and continuing must give the same as continuing and applying them at the end — for every integrator, also with
+    unsynchronised internal coordinates (safe_mode = 0) when the documented protocol is followed (synchronize, operate on the
+    particles, ask the integrator to recalculate its internal coordinates), with dt < 0, and through a save / restore."""
+    rng = c.rng.fork()
+    fails = []
+    worst = {}
+    tmpd = tempfile.mkdtemp(prefix="c20h.", dir=os.environ.get("VERIF_TMP", "/tmp"))
+    configs = [("ias15", None), ("whfast", 1), ("whfast", 0), ("leapfrog", None), ("mercurius", 1), ("mercurius", 0), ("trace", None),
+               ("janus", None), ("saba", 1), ("saba", 0), ("eos", 1), ("eos", 0), ("bs", None)]
+    label = {("ias15", None): "ias15", ("whfast", 1): "whfast safe_mode=1", ("whfast", 0): "whfast safe_mode=0 + recalculate flag",
+             ("leapfrog", None): "leapfrog", ("mercurius", 1): "mercurius", ("mercurius", 0): "mercurius", ("trace", None): "trace",
+             ("janus", None): "janus + recalculate flag", ("saba", 1): "saba safe_mode=0 + recalculate flag", ("saba", 0): "saba safe_mode=0 + recalculate flag",
+             ("eos", 1): "eos", ("eos", 0): "eos", ("bs", None): "bs"}
+    reps = 3 if c.thorough else 1
+
+    def mk(integ, safe, dt, seedvals):
+        sm = rebound.Simulation()
+        e1, i1, f1, e2, f2, off, vof = seedvals
+        sm.add(m=1.0)
+        sm.add(m=1e-3, a=1.0, e=e1, inc=i1, Omega=1.0, omega=2.0, f=f1)
+        sm.add(m=3e-4, a=2.1, e=e2, inc=0.1, f=f2)
+        sm.add(m=0.0, a=3.3, e=0.1, f=f1 + 1)                # a test particle
+        sm.N_active = 3
+        for pp in sm.particles:                               # centre of mass away from the origin and moving
+            pp.x += off; pp.vy += vof
+        sm.integrator = integ
+        sm.dt = dt
+        if safe is not None:
+            getattr(sm, "ri_" + integ).safe_mode = safe
+        if integ == "janus":
+            sm.ri_janus.scale_pos = 1e-12; sm.ri_janus.scale_vel = 1e-12
+            sm.N_active = sm.N
+        return sm
+
+    def recalc(sm, integ):
+        if integ in ("whfast", "saba"):
+            sm.ri_whfast.recalculate_coordinates_this_timestep = 1
+        if integ == "janus":
+            sm.ri_janus.recalculate_integer_coordinates_this_timestep = 1
+
+    def diff(a, b):
+        e = 0.0
+        for pa_, pb_ in zip(a.particles, b.particles):
+            for f_ in COMPS6:
+                e = max(e, abs(getattr(pa_, f_) - getattr(pb_, f_)))
+        return e
+
+    for rep in range(reps):
+        for (integ, safe) in configs:
+            for op in ("rotate", "com"):
+                try:
+                    sv = (rng.uniform(0, 0.3), rng.uniform(0, 0.5), rng.uniform(0, 6), rng.uniform(0, 0.2), rng.uniform(0, 6), rng.uniform(-3, 3), rng.uniform(-1, 1))
+                    sign = -1.0 if (rep + len(integ) + (op == "com")) % 3 == 0 else 1.0
+                    dt = sign * 0.01
+                    qv = [rng.normal() for _ in range(4)]
+                    nn = math.sqrt(sum(x * x for x in qv)); qv = [x / nn for x in qv]
+                    q = rebound.Rotation(ix=qv[0], iy=qv[1], iz=qv[2], r=qv[3])
+                    a, b = mk(integ, safe, dt, sv), mk(integ, safe, dt, sv)
+                    eft = 1 if integ in ("ias15", "bs") else 0
+                    a.integrate(sign * 0.5, exact_finish_time=eft); b.integrate(sign * 0.5, exact_finish_time=eft)
+                    a.synchronize()
+                    if op == "rotate":
+                        a.rotate(q)
+                    else:
+                        a.move_to_com()
+                    recalc(a, integ)
+                    through_restore = (rep + len(integ)) % 2 == 0
+                    if through_restore:
+                        fn = os.path.join(tmpd, "h.bin")
+                        a.save_to_file(fn, delete_file=True)
+                        a = rebound.Simulation(fn)
+                        dim("history: frame op, save/restore, continue")
+                    a.integrate(sign * 1.0, exact_finish_time=eft); b.integrate(sign * 1.0, exact_finish_time=eft)
+                    a.synchronize(); b.synchronize()
+                    if op == "rotate":
+                        b.rotate(q)
+                    else:
+                        b.move_to_com()
+                    e = diff(a, b)
+                    tol = 1e-8 if integ == "janus" else 1e-10
+                    worst["%s/%s" % (integ if safe is None else "%s safe_mode=%d" % (integ, safe), op)] = max(worst.get("%s/%s" % (integ if safe is None else "%s safe_mode=%d" % (integ, safe), op), 0.0), e)
+                    dim("history: op then continue, integrator " + label[(integ, safe)])
+                    if sign < 0:
+                        dim("time: dt < 0 after a frame op")
+                    c.count(("history", integ, safe, op, sign))
+                    if not (e <= tol and a.t == b.t):
+                        fails.append(("history:%s-%s" % (op, integ), "%s in the middle of a %s run (safe_mode=%r, dt=%g%s) then continuing differs from continuing and applying it at the end by %.3g"
+                                      % ("Simulation.rotate" if op == "rotate" else "move_to_com", integ, safe, dt, ", through save/restore" if through_restore else "", e),
+                                      dict(integrator=integ, safe_mode=safe, op=op, dt=dt, q=qv, system=sv, restore=through_restore, err=e)))
+                    # for the record: what happens WITHOUT the documented recalculate request under safe_mode=0 (user responsibility)
+                    if safe == 0 and integ in ("whfast", "saba") and rep == 0:
+                        a2, b2 = mk(integ, safe, dt, sv), mk(integ, safe, dt, sv)
+                        a2.integrate(sign * 0.5, exact_finish_time=0); b2.integrate(sign * 0.5, exact_finish_time=0)
+                        a2.synchronize()
+                        a2.rotate(q) if op == "rotate" else a2.move_to_com()
+                        a2.integrate(sign * 1.0, exact_finish_time=0); b2.integrate(sign * 1.0, exact_finish_time=0)
+                        a2.synchronize(); b2.synchronize()
+                        b2.rotate(q) if op == "rotate" else b2.move_to_com()
+                        c.cov.setdefault("safe_mode_0_without_recalculate_flag_error(documented_user_responsibility)", {})["%s/%s" % (integ, op)] = float("%.3g" % diff(a2, b2))
+                except (ValueError, OverflowError, ZeroDivisionError) as ex:
+                    fails.append(("nonfinite:history", "non-finite value in the history test (%r)" % (ex,), dict(integrator=integ, op=op)))
+    shutil.rmtree(tmpd, ignore_errors=True)
+    c.cov["history_worst_errors_measured"] = {k: float("%.3g" % v) for k, v in sorted(worst.items())}
+    seen = set()
+    for key, what, rep_ in fails:
+        if key in seen:
+            continue
+        seen.add(key)
+        c.violation(key, what, rep_)
 
 
 # ----------------------------------------------------------------------------- units
